@@ -571,9 +571,19 @@ def corpus():
     # caller timeout shorter than the ack timeout while a data frame has been skipped
     a = alphabet(REQ_SHORT, 0)
     P("caller-timeout-during-ack-wait:dT", [["W", REQ_SHORT.hex(), 50], ["A", 7], ["F", [["dT", a["dT"].hex()]], []], ["A", 120]] + reads(2), ack=1000)
+    # data frames whose length needs the upper half of the 4-byte length field
+    big = bytes((i * 5 + 1) & 0xFF for i in range(65540))
+    P("length-field-upper-half:dT,dT", [["F", [["dT", fr(1, bytes([DST, SRC]) + big).hex()], ["dT", a["dT"].hex()]], [70000]], ["A", 3]] + reads(2))
     # end of stream while blocked in read with a caller timeout (C08 territory, seen: TimeoutError, flag not set)
     P("eof-while-blocked-in-read", [["R", 200], ["A", 10], ["E"], ["A", 300], ["R", 50], ["A", 60]])
     return out
+
+
+def _pk(ctx, quick, thorough, search):
+    """tier-dependent parameter; the failing-input search of the quick tier gets its own (moderate) budget"""
+    if ctx.widened:
+        return search if ctx.tier == "quick" else thorough
+    return quick if ctx.quick else thorough
 
 
 def gen_plans(ctx):
@@ -586,7 +596,7 @@ def gen_plans(ctx):
         return ACKS[i % 3], (i // 3) % 2, (REQ_LONG if (i // 6) % 2 == 0 else REQ_SHORT)
 
     # (1) exhaustive sequences over the core alphabet, whole segments, every position
-    L = ctx.pick(3, 4)
+    L = _pk(ctx, 4, 5, 4)
     n_seq = 0
     for n in range(0, L + 1):
         for labels in itertools.product(CORE, repeat=n):
@@ -601,7 +611,7 @@ def gen_plans(ctx):
     ctx.exhaustive_parts.append(f"all {n_seq} frame sequences of length <= {L} over the core alphabet {CORE} x 6 injection positions "
                                 f"(whole segment; ack timeout / request rotate; both drain schedules when an alive check is present)")
     # (2) every single split point (incl. inside the 6-byte header) of all sequences up to length 2 (3 thorough)
-    L2 = ctx.pick(2, 3)
+    L2 = _pk(ctx, 2, 3, 2)
     n_split = 0
     for n in range(1, L2 + 1):
         for labels in itertools.product(CORE, repeat=n):
@@ -625,8 +635,8 @@ def gen_plans(ctx):
     ctx.exhaustive_parts.append(f"ack timeouts {ACKS} ms x {{early, 3 ms before, 5 ms after the deadline}} x caller timeout {{none, shorter, longer}} "
                                 f"x all sequences of length <= 2 over {{ack, ackE, dT, e40, alive}} ({n3} plans)")
     # (4) seeded: full alphabet, longer sequences, frames spread over several positions, multi-splits
-    LMAX = ctx.pick(4, 6)
-    for _ in range(ctx.pick(2500, 30000)):
+    LMAX = _pk(ctx, 4, 6, 6)
+    for _ in range(_pk(ctx, 2500, 30000, 12000)):
         ack = rng.choice(ACKS)
         req = rng.choice([REQ_LONG, REQ_SHORT, bytes.fromhex("1003"), bytes.fromhex("2e1234aabbccddeeff00")])
         y = rng.randrange(2)
@@ -756,47 +766,45 @@ def _names():
     return lambda cw: HSFZStatus(cw).name
 
 
-def compare(ctx, label, plan, rep, mo, names):
-    """returns True when model and implementation agree and the property's clauses hold on the implementation"""
+def compare(ctx, label, plan, rep, mo, names, budget):
+    """returns True when model and implementation agree and the property's clauses hold on the implementation.
+    `budget` caps how many cases per kind are shrunk and reported (the shrinker re-runs both sides many times)."""
     ops, arr = lower(plan)
     mo = [canon_model(l, names) for l in mo]
-    ok = True
     viol = spec_check(plan, ops, arr, rep)
-    if viol:
-        ok = False
-        for kind, detail in viol[:2]:
-            small = shrink(plan, lambda p, kind=kind: kind in _viol_kinds(p))
-            sops, sarr = lower(small)
-            srep = run_impl(small)
-            sdet = [d for k, d in spec_check(small, sops, sarr, srep) if k == kind]
-            key = f"hsfz:{kind}:{frames_shape(small)}"
-            ctx.disagree(key, f"HSFZ {kind}: {sdet[0] if sdet else detail}",
-                         {"plan": small, "ops": sops, "found_in": label, "clause": kind},
-                         impl=srep, model=None, spec_violated=True,
-                         site="HSFZConnection._read_ack / read_diag_request / _read_worker")
-    if rep != mo:
-        ok = False
-        i = next((k for k in range(min(len(rep), len(mo))) if rep[k] != mo[k]), min(len(rep), len(mo)))
-        fi, fm = fields(rep[i]) if i < len(rep) else {}, fields(mo[i]) if i < len(mo) else {}
-        diff = sorted(k for k in set(fi) | set(fm) if fi.get(k) != fm.get(k))
-        if not viol:
-            def differs(p):
-                o, _ = lower(p)
-                r = run_impl(p)
-                m = [canon_model(l, names) for l in ctx.lean(model_lines(p, o))[1:]]
-                return r != m
-            small = shrink(plan, differs) if ctx.elapsed() < 600 else plan
-            sops, _ = lower(small)
-            srep = run_impl(small)
-            smo = [canon_model(l, names) for l in ctx.lean(model_lines(small, sops))[1:]]
-            j = next((k for k in range(min(len(srep), len(smo))) if srep[k] != smo[k]), 0)
-            sfi, sfm = (fields(srep[j]) if j < len(srep) else {}), (fields(smo[j]) if j < len(smo) else {})
-            sdiff = sorted(k for k in set(sfi) | set(sfm) if sfi.get(k) != sfm.get(k))
-            ctx.disagree(f"hsfz:model-differs:{'+'.join(sdiff)}:{frames_shape(small)}:{shape(small)}",
-                         f"HSFZ implementation and model differ in {sdiff} at operation {j} ({sops[j] if j < len(sops) else '?'})",
-                         {"plan": small, "ops": sops, "found_in": label, "op_index": j},
-                         impl=srep, model=smo, spec_violated=False, site="HSFZConnection")
-    return ok
+    for kind, detail in viol[:2]:
+        if budget.get(kind, 0) >= 3:
+            continue
+        budget[kind] = budget.get(kind, 0) + 1
+        small = shrink(plan, lambda p, kind=kind: kind in _viol_kinds(p))
+        sops, sarr = lower(small)
+        srep = run_impl(small)
+        sdet = [d for k, d in spec_check(small, sops, sarr, srep) if k == kind]
+        key = f"hsfz:{kind}:{frames_shape(small)}"
+        ctx.disagree(key, f"HSFZ {kind}: {sdet[0] if sdet else detail}",
+                     {"plan": small, "ops": sops, "found_in": label, "clause": kind},
+                     impl=srep, model=None, spec_violated=True,
+                     site="HSFZConnection._read_ack / read_diag_request / _read_worker")
+    if rep != mo and not viol and budget.get("tie", 0) < 4:
+        budget["tie"] = budget.get("tie", 0) + 1
+
+        def differs(p):
+            o, _ = lower(p)
+            r = run_impl(p)
+            m = [canon_model(l, names) for l in ctx.lean(model_lines(p, o))[1:]]
+            return r != m
+        small = shrink(plan, differs)
+        sops, _ = lower(small)
+        srep = run_impl(small)
+        smo = [canon_model(l, names) for l in ctx.lean(model_lines(small, sops))[1:]]
+        j = next((k for k in range(min(len(srep), len(smo))) if srep[k] != smo[k]), 0)
+        sfi, sfm = (fields(srep[j]) if j < len(srep) else {}), (fields(smo[j]) if j < len(smo) else {})
+        sdiff = sorted(k for k in set(sfi) | set(sfm) if sfi.get(k) != sfm.get(k))
+        ctx.disagree(f"hsfz:model-differs:{'+'.join(sdiff)}:{frames_shape(small)}:{shape(small)}",
+                     f"HSFZ implementation and model differ in {sdiff} at operation {j} ({sops[j] if j < len(sops) else '?'})",
+                     {"plan": small, "ops": sops, "found_in": label, "op_index": j},
+                     impl=srep, model=smo, spec_violated=False, site="HSFZConnection")
+    return not viol and rep == mo
 
 
 def run(ctx):
@@ -818,6 +826,7 @@ def run(ctx):
         batch += ml
     out = ctx.lean(batch)
     n_bad = 0
+    budget = {}
     for (label, p), rep, (off, n) in zip(plans, impl, index):
         mo = out[off + 1: off + n]
         ctx.ev()
@@ -828,10 +837,7 @@ def run(ctx):
         if rep and rep[-1].startswith("c="):
             for r in fields(rep[-1])["done"].split(";"):
                 ctx.kind("result:" + r.partition(":")[2].split(":")[0].rstrip("0123456789"))
-        if n_bad < 12 or ctx.widened:
-            if not compare(ctx, label, p, rep, mo, names):
-                n_bad += 1
-        elif rep != [canon_model(l, names) for l in mo]:
+        if not compare(ctx, label, p, rep, mo, names, budget):
             n_bad += 1
         ctx.traces_validated += 1
     ctx.notes["plans"] = len(plans)
@@ -849,15 +855,20 @@ def framing(ctx):
     from gallia.transports.hsfz import HSFZConnection
     rng = ctx.rng
     cases = []
-    for _ in range(ctx.pick(150, 1500)):
+    for _ in range(_pk(ctx, 150, 1500, 300)):
         frames = []
         for _ in range(rng.randint(1, 6)):
             cw = rng.choice([0, 1, 2, 0x10, 0x12, 0x40, 0xFF, rng.randrange(65536)])
-            ln = rng.choice([0, 1, 2, 3, 7, rng.randint(0, 40), rng.randint(0, ctx.pick(600, 5000))])
+            ln = rng.choice([0, 1, 2, 3, 7, rng.randint(0, 40), rng.randint(0, _pk(ctx, 600, 5000, 600))])
             frames.append(fr(cw, bytes(rng.randrange(256) for _ in range(ln))))
         stream = b"".join(frames)
         tail = rng.choice([b"", stream[: rng.randint(0, 9)], bytes(rng.randrange(256) for _ in range(rng.randint(1, 5)))])
         cases.append((stream + tail, len(frames)))
+    # lengths that need the upper half of the 4-byte length field
+    for ln in (65535, 65536, 65538, 70001):
+        body = bytes((i * 7 + ln) & 0xFF for i in range(ln))
+        cases.append((fr(1, body) + fr(2, bytes([SRC, DST, 1])) + b"\x00\x00", 2))
+    ctx.exhaustive_parts.append("frame lengths 65535, 65536, 65538, 70001 (upper half of the length field) through the real _read_frame")
 
     async def read_all(data):
         reader = asyncio.StreamReader()
@@ -919,7 +930,7 @@ MANIFEST = {
                    "step that parses them, an error control word closes the connection, skipped frames stay queued in arrival order. "
                    "Tied to the code by tables regenerated from hsfz.py (enum, struct formats, literals, match arms) with agreement "
                    "theorems, and by a differential run of the real HSFZTransport/HSFZConnection over in-memory streams under virtual "
-                   "time: all frame sequences up to length 3 (quick) / 4 (thorough) over an 8-symbol gateway alphabet x 6 injection "
+                   "time: all frame sequences up to length 4 (quick) / 5 (thorough) over an 8-symbol gateway alphabet x 6 injection "
                    "positions, every single split point (incl. inside the header) for sequences up to length 2 / 3, ack timeouts "
                    "{0.1, 1.0, 2.5 s} x arrival before/after the deadline x caller timeouts, seeded longer sequences over a 27-symbol "
                    "alphabet with multi-splits; the property's clauses are also evaluated directly on the implementation's traces."),
